@@ -282,6 +282,7 @@ fn search(ctx: &Ctx, rep: &mut Report, upload: bool) {
                 }
             },
             key: &|s: &St| key_of(s),
+            project: None,
             label: &|a| format!("{:?}", actions[a]),
         },
     );
